@@ -218,6 +218,9 @@ class Kernel:
             os.makedirs(os.path.dirname(path), exist_ok=True)
             if text is None:
                 os.makedirs(path, exist_ok=True)
+            elif text == "DELETE:":
+                if os.path.lexists(path):
+                    os.unlink(path)
             else:
                 with open(path, "wb") as f:
                     f.write(text.encode("latin-1") if isinstance(text, str) else text)
